@@ -46,6 +46,41 @@ def c04(r):
     producer(r, ["C04.", "C01."])  # "resumes producing a valid chain": chain validity is part of C04
 
 
+STRICT_SYNC_SRC = ("model", "stopqueued", "handover", "p2pidle", "crashenum", "retrieve")
+STRICT_SYNC_SHAPES = ("ShapeA", "ShapeDup", "ShapeE", "ShapeBig")
+
+
+def syncer_strict(r, traces):
+    """Step-level conformance of Syncer.tla: every record of a full node's run over a named chain shape is an
+    action of the tier-I module (SyncerStrict.tla). One TLC pass per (first height, shape)."""
+    acc = lambda ev: ev.get("src") in STRICT_SYNC_SRC and ev.get("shape") in STRICT_SYNC_SHAPES
+    import os
+    cat = os.path.join(r.scratch, "syncer-strict-all.ndjson")
+    with open(cat, "w") as out:
+        for t in traces:
+            out.write(open(t).read())
+    traces = [cat]
+    for i, t in enumerate(traces):
+        st = {"on": False, "exec": False}
+
+        def corrupt(ev, st=st):
+            if ev.get("ev") == "Reset":
+                st["on"], st["exec"] = acc(ev), False
+                return None
+            if not st["on"] or ev.get("node") != "full":
+                return None
+            if ev.get("ev") == "ExecTxs" and ev.get("ok"):
+                st["exec"] = True
+            if st["exec"] and ev.get("ev") == "KV" and ev.get("kind") == "state":
+                ev = dict(ev)
+                ev["h"] += 1
+                return ev
+            return None
+        r.tlc_strict("SyncerStrict", t, ("ih", "shape", "shape"), ("IH", "Shape", "ShapeName"),
+                     to_const=(lambda v: v, lambda v: v, lambda v: '"%s"' % v), accept=acc,
+                     selftest=corrupt if i == len(traces) - 1 else None)
+
+
 def syncer(r, prefixes, crash):
     # tier I: the as-is design on a chain without repeated tx lists, the repaired design on one with them;
     # the as-is design on repeated tx lists is the known finding C02-alias (TLC must find the counterexample)
@@ -55,16 +90,21 @@ def syncer(r, prefixes, crash):
     if ok:
         raise Inconclusive("Syncer_alias.cfg no longer reproduces the C02-alias counterexample: model and findings file disagree")
     n = 60 if r.tier == "quick" else 300
+    traces = []
     for cfg, shape in [("Syncer_sim.cfg", "ShapeBig"), ("Syncer_simE.cfg", "ShapeE"), ("Syncer_simA.cfg", "ShapeA")]:
         beh = r.tlc_simulate("MCSyncer.tla", cfg, n, 60, name="beh-" + shape)
         for ih in ([1] if r.tier == "quick" else [1, 3]):
             t = r.drive("syncer", ["-arg", "%d:%s" % (ih, shape)], beh=beh, name="syncer-model-%s-ih%d" % (shape, ih))
             r.tlc_validate("SyncTrace", t, prefixes)
+            traces.append(t)
     t = r.drive("syncer", name="syncer-random")
     r.tlc_validate("SyncTrace", t, prefixes)
+    traces.append(t)
     if crash:
         t = r.drive("syncer", ["-arg", "crash"], name="syncer-crashenum")
         r.tlc_validate("SyncTrace", t, prefixes)
+        traces.append(t)
+    return traces
 
 
 def c02(r):
@@ -75,10 +115,11 @@ def c02(r):
         ok, _ = r.tlc_exhaustive("StorePoll.tla", cfg, workers=2, expect_ok=False)
         if ok:
             raise Inconclusive(cfg + " should reproduce the P2P cursor defect")
-    syncer(r, ["C02."], crash=False)
+    traces = syncer(r, ["C02."], crash=False)
     # DA ingress with delays: the same chains scanned from a DA layer that answers with every fault sequence
     t = r.drive("syncer", ["-arg", "retrieve"], name="syncer-retrieve")
     r.tlc_validate("SyncTrace", t, ["C02."])
+    syncer_strict(r, traces + [t])
 
 
 def c03(r):
@@ -95,6 +136,9 @@ def c09(r):
     r.tlc_validate("SyncTrace", t, ["C09.", "C02.Halted", "C02.Converged", "C02.AppliedWhatArrived"])
     t = r.drive("syncer", ["-arg", "adversary"], name="syncer-adversary")
     r.tlc_validate("SyncTrace", t, ["C09.", "C02.Halted"])
+    # stop requests while fetched events still wait in the hand-over channels, restarts after them
+    t = r.drive("syncer", name="syncer-random")
+    r.tlc_validate("SyncTrace", t, ["C09.", "C02.Halted", "C02.Converged", "C02.AppliedWhatArrived"])
 
 
 def c10(r):
@@ -235,7 +279,7 @@ def c12(r):
 
 
 def c05(r):
-    syncer(r, ["C05.", "C02."], crash=True)
+    syncer_strict(r, syncer(r, ["C05.", "C02."], crash=True))
 
 
 def submitter(r, prefixes, strict=True):
